@@ -279,6 +279,21 @@ impl Token {
     }
 }
 
+/// Access for the `verif` codec hooks (see `crate::verif`); not used by the library itself
+#[cfg(feature = "verif")]
+impl Token {
+    pub(crate) fn verif_decode(
+        key: &dyn HandshakeTokenKey,
+        raw_token_bytes: &[u8],
+    ) -> Option<Self> {
+        Self::decode(key, raw_token_bytes)
+    }
+
+    pub(crate) fn verif_nonce(&self) -> u128 {
+        self.nonce
+    }
+}
+
 /// Content of a [`Token`] that is encrypted from the client
 pub(crate) enum TokenPayload {
     /// Token originating from a Retry packet
